@@ -153,6 +153,30 @@ def private_scenarios(rng, n, two=True):
     return hs
 
 
+def private_first_touch(rng):
+    """C09 histories in which the first touch of a lazy group in the process is the explicit initialisation of a
+    *private* table (as test/test_private.py does, but first): the public table must afterwards serve what the
+    canonical order serves, through every kind of object."""
+    hs = []
+    reps = {"cov": "cr", "cryst": "cs", "neut": "nt", "act": "na", "xray": "xr", "emis": "ka", "mag": "mf"}
+    for g in ALL_GROUPS:
+        for k in range(2):
+            evs = [{"op": "create", "T": "T1"}]
+            if k:
+                evs += [{"op": "init", "g": x, "T": "T1"} for x in rng.sample(ALL_GROUPS, 2) if x != g]
+            evs.append({"op": "init", "g": g, "T": "T1"})
+            objs = ["eD", "iD", "ionD", "e0"]
+            rng.shuffle(objs)
+            for a in objs[:3 if k else 2]:
+                evs.append({"op": "read", "T": "pub", "a": a, "p": reps[g]})
+            evs.append({"op": "calc", "c": rng.choice(["neutron_sld", "xray_sld", "composite", "d2o_match"])})
+            if k:
+                evs.append({"op": "init", "g": g, "T": "pub"})
+                evs.append({"op": "read", "T": "pub", "a": "eD", "p": reps[g]})
+            hs.append(evs)
+    return hs
+
+
 def canonical_record():
     h = lazyexec.canonical_history()
     calcs = ["neutron_sld", "atom_sld", "xray_sld", "f0", "volume", "activation", "activation_iaea", "d2o_match", "list",
@@ -254,7 +278,7 @@ def signature(h, v, steps=None):
             "history": [ev_str(e) for e in evs]}
 
 
-def process(ctx, configs, quick, only_private=None, extra_histories=()):
+def process(ctx, configs, quick, only_private=None, extra_histories=(), always=()):
     """configs: list of (groups, priv, max_asg, max_mut).  Runs everything and reports into ctx."""
     load_fix_flags()
     rng = random.Random(ctx.seed)
@@ -282,6 +306,11 @@ def process(ctx, configs, quick, only_private=None, extra_histories=()):
         all_h = [h for h in all_h if is_private(h)]
     elif only_private is False:
         all_h = [h for h in all_h if not is_private(h)]
+    for h in always:
+        k = canon(h)
+        if k not in seen:
+            seen.add(k)
+            all_h.append(h)
     canon_rec = canonical_record()
     outs = run_histories(all_h, heap_for=extra_histories)
     traces = []
